@@ -200,22 +200,22 @@ Lemma outer_spec : forall fuel l cnt, (length l <= fuel)%nat -> Forall ok l -> S
 Proof.
   induction fuel as [|f IH]; intros l cnt Hlen Hok Hs l' cnt' E.
   - destruct l; [|simpl in Hlen; lia]. simpl in E. inversion E; subst.
-    repeat split; auto; try tauto; try constructor. lia.
+    split; [constructor|]. split; [reflexivity|]. split; [tauto|]. split; [constructor | lia].
   - destruct l as [|cur rest].
-    + simpl in E. inversion E; subst. repeat split; auto; try tauto; try constructor. lia.
+    + simpl in E. inversion E; subst.
+      split; [constructor|]. split; [reflexivity|]. split; [tauto|]. split; [constructor | lia].
     + cbn [outer] in E. inversion Hok as [|? ? Hc Hr]; subst. simpl in Hlen.
       destruct Hc as [-> | Hg].
-      * cbn [tomb snd is_zero] in E. simpl in E.
+      * change (is_zero (snd tomb)) with true in E. cbn iota in E.
         destruct (outer f rest cnt) as [r c] eqn:Eo. inversion E; subst.
+        change (lv (tomb :: rest)) with (lv rest) in Hs.
         eapply IH in Eo; eauto; [|lia].
         destruct Eo as (G1 & G2 & G3 & G4 & G5).
-        repeat split.
-        -- constructor; [apply tomb_ok | exact G1].
-        -- simpl. lia.
-        -- rewrite Cov_cons, G3. rewrite Cov_cons. tauto.
-        -- rewrite Cov_cons, G3. rewrite Cov_cons. tauto.
-        -- exact G4.
-        -- cbn [nlive tomb snd]. simpl. lia.
+        split; [constructor; [apply tomb_ok | exact G1]|].
+        split; [simpl; lia|].
+        split; [intros ip; rewrite !Cov_cons, G3; tauto|].
+        split; [change (lv (tomb :: r)) with (lv r); exact G4|].
+        cbn [nlive tomb snd]. rewrite Z.eqb_refl. lia.
       * rewrite (is_zero_good _ Hg) in E.
         destruct (inner cur [] rest 0) as [[c2 rest2] c1] eqn:Ei.
         destruct (outer f rest2 (cnt + c1)) as [r c] eqn:Eo. inversion E; subst.
@@ -230,38 +230,37 @@ Proof.
         eapply IH in Eo; eauto; [|simpl in I3; lia].
         destruct Eo as (G1 & G2 & G3 & G4 & G5).
         pose proof (good_live _ I1) as Hl2.
-        repeat split.
-        -- constructor; [apply good_ok; exact I1 | exact G1].
-        -- simpl. simpl in I3. lia.
-        -- rewrite Cov_cons, G3. intros H. apply Cov_cons.
-           assert (H' : inr ip c2 \/ Cov rest2 ip) by tauto. apply I4 in H'. rewrite Cov_nil in H'. tauto.
-        -- rewrite Cov_cons. intros H. apply Cov_cons. rewrite G3.
-           assert (H' : inr ip cur \/ Cov [] ip \/ Cov rest ip) by tauto. apply I4 in H'. tauto.
-        -- rewrite (lv_cons_live _ _ Hl2).
-           constructor; [exact G4|]. apply Forall_forall. intros y Hy. apply In_lv in Hy. destruct Hy as [Hy Hly].
-           rewrite Forall_forall in G1. pose proof (ok_live_good _ (G1 y Hy) Hly) as Hgy.
-           assert (Hc : Cov r (snd y)) by (exists y; unfold inr, good in *; repeat split; auto; lia).
-           apply G3 in Hc. destruct Hc as (x & Hx & Hlx & Hix). pose proof (I5 x Hx Hlx) as H5.
-           unfold sepR, inr in *. lia.
-        -- cbn [nlive]. destruct (snd cur =? 0) eqn:E0; [lia|]. destruct (snd c2 =? 0) eqn:E1; [lia|].
-           simpl in I7. lia.
+        split; [constructor; [apply good_ok; exact I1 | exact G1]|].
+        split; [simpl; simpl in I3; lia|].
+        split.
+        { intros ip. rewrite !Cov_cons, G3. specialize (I4 ip). rewrite Cov_nil in I4. tauto. }
+        split.
+        { rewrite (lv_cons_live _ _ Hl2).
+          constructor; [exact G4|]. apply Forall_forall. intros y Hy. apply In_lv in Hy. destruct Hy as [Hy Hly].
+          rewrite Forall_forall in G1. pose proof (ok_live_good _ (G1 y Hy) Hly) as Hgy.
+          assert (Hc : Cov r (snd y)) by (exists y; unfold inr, good in *; repeat split; auto; lia).
+          apply G3 in Hc. destruct Hc as (x & Hx & Hlx & Hix). pose proof (I5 x Hx Hlx) as H5.
+          unfold sepR, inr in *. lia. }
+        cbn [nlive]. destruct (snd cur =? 0) eqn:E0; [lia|]. destruct (snd c2 =? 0) eqn:E1; [lia|].
+        simpl in I7. lia.
 Qed.
 
 (* ---- the second sort and the reslice ---- *)
 Lemma firstn_lv_sorted l : StronglySorted desc l -> Forall ok l -> firstn (length (lv l)) l = lv l.
 Proof.
   induction 1 as [|a l HS IH HF]; intros Hok; [reflexivity|].
-  inversion Hok as [|? ? Ha Hl]; subst. cbn [lv filter]. unfold liveb at 1 3.
-  destruct (snd a =? 0) eqn:E0; cbn [negb].
+  inversion Hok as [|? ? Ha Hl]; subst.
+  destruct (Z.eq_dec (snd a) 0) as [E0 | E0].
   - (* a is a tombstone: everything after it starts at 0, hence is a tombstone too *)
+    rewrite (lv_cons_dead _ _ E0).
     assert (Hn : lv l = []).
     { destruct (lv l) as [|y t] eqn:Ey; [reflexivity|]. exfalso.
       assert (Hy : In y (lv l)) by (rewrite Ey; left; reflexivity). apply In_lv in Hy. destruct Hy as [Hy Hly].
       rewrite Forall_forall in HF, Hl. pose proof (ok_live_good _ (Hl y Hy) Hly) as Hg.
       pose proof (HF y Hy) as Hd. destruct Ha as [-> | Hga]; [|pose proof (good_live _ Hga); lia].
       unfold desc, good in *. simpl in Hd. lia. }
-    fold (lv l). rewrite Hn. reflexivity.
-  - fold (lv l). cbn [length firstn]. f_equal. apply IH. exact Hl.
+    rewrite Hn. reflexivity.
+  - rewrite (lv_cons_live _ _ E0). cbn [length firstn]. f_equal. apply IH. exact Hl.
 Qed.
 
 Lemma Permutation_lv a b : Permutation a b -> Permutation (lv a) (lv b).
@@ -383,6 +382,9 @@ Proof.
   split; apply Cov_perm; [exact HP | apply Permutation_sym; exact HP].
 Qed.
 
+Lemma merge_items_single x : merge_items [x] = ([x], 0).
+Proof. unfold merge_items. cbn [length outer]. destruct (is_zero (snd x)); reflexivity. Qed.
+
 (* zero or one loaded range: nothing to merge, whatever its bounds *)
 Lemma search_exact_small : forall s1 s2 items ip,
   valid_sorter s1 -> valid_sorter s2 -> (length items <= 1)%nat ->
@@ -390,14 +392,13 @@ Lemma search_exact_small : forall s1 s2 items ip,
 Proof.
   intros s1 s2 items ip H1 H2 Hl. destruct (H1 items) as [HP _]. unfold build2.
   destruct items as [|x [|y t]]; [| |simpl in Hl; lia].
-  - apply Permutation_nil in HP. rewrite HP. cbn. destruct (H2 []) as [HP2 _].
-    apply Permutation_nil in HP2. rewrite HP2. reflexivity.
-  - apply Permutation_length_1_inv in HP. rewrite HP. unfold merge_items. cbn [length outer].
-    assert (E : (if is_zero (snd x) then let '(r, c) := outer 0 [] 0 in (x :: r, c)
-                 else let '(cur', rest', c1) := inner x [] [] 0 in let '(r, c) := outer 0 rest' (0 + c1) in (cur' :: r, c))
-                = ([x], 0)) by (destruct (is_zero (snd x)); reflexivity).
-    rewrite E. destruct (H2 [x]) as [HP2 _]. apply Permutation_length_1_inv in HP2. rewrite HP2.
-    cbn. destruct x as [s e]. cbn. unfold in_rng. cbn. destruct (s <=? ip); cbn; [rewrite orb_false_r|]; reflexivity.
+  - apply Permutation_sym, Permutation_nil in HP. rewrite HP. destruct (H2 []) as [HP2 _].
+    apply Permutation_sym, Permutation_nil in HP2. cbn. try rewrite HP2. reflexivity.
+  - apply Permutation_sym, Permutation_length_1_inv in HP. rewrite HP. rewrite merge_items_single.
+    destruct (H2 [x]) as [HP2 _]. apply Permutation_sym, Permutation_length_1_inv in HP2. rewrite HP2.
+    change (Z.to_nat (Z.of_nat (length [x]) - 0)) with 1%nat. destruct x as [s e].
+    cbn [firstn search existsb]. unfold in_rng. cbn [fst snd].
+    destruct (s <=? ip); cbn [andb orb]; try rewrite orb_false_r; reflexivity.
 Qed.
 
 Lemma guard_cases items :
@@ -485,4 +486,59 @@ Proof. exists [(0, 5); (0, 9)], 3. vm_compute. auto. Qed.
 Lemma refuted_v4zero :
   exists items ip, forallb wf_rng items = true /\
     table_search [] (build go_insertion_sort items) ip = false /\ spec [] items ip = true.
-Proof. exists [(Z4, Z4 + 5); (Z4, Z4)], (Z4 + 3). vm_compute. auto. Qed.
+Proof. exists [(Z4, Z4 + 5); (Z4 + 2, Z4 + 9); (Z4, Z4)], (Z4 + 1). vm_compute. auto. Qed.
+
+(* ---- the executable predicates of RunC19 ---- *)
+Definition wf_bytes (b : list Z) : Prop := Forall (fun x => 0 <= x) b.
+Definition wf_input (i : input) : Prop :=
+  Forall (fun p => wf_bytes (fst p) /\ wf_bytes (snd p)) (in_pairs i).
+
+Lemma be_nonneg b : wf_bytes b -> 0 <= be b.
+Proof.
+  unfold be. assert (G : forall acc, 0 <= acc -> wf_bytes b -> 0 <= fold_left (fun a x => a * 256 + x) b acc).
+  { induction b as [|x b IH]; intros acc Ha Hb; simpl; [exact Ha|]. inversion Hb; subst. apply IH; [lia | assumption]. }
+  apply G. lia.
+Qed.
+Lemma to16_nonneg b z : wf_bytes b -> to16 b = Some z -> 0 <= z.
+Proof.
+  intros Hb. unfold to16. pose proof (be_nonneg b Hb). pose proof Z4_pos.
+  destruct (length b) as [|[|[|[|[|[|[|[|[|[|[|[|[|[|[|[|[|n]]]]]]]]]]]]]]]]]; intros E; inversion E; lia.
+Qed.
+Lemma insert_pair_wf s e r : wf_bytes s -> wf_bytes e -> insert_pair s e = Some r -> wf_rng r = true.
+Proof.
+  intros Hs He. unfold insert_pair. destruct (to16 s) as [s16|] eqn:E1; [|discriminate].
+  destruct (to16 e) as [e16|] eqn:E2; [|discriminate].
+  pose proof (to16_nonneg _ _ Hs E1).
+  destruct (negb (Bool.eqb (is_v4 s16) (is_v4 e16))); [discriminate|].
+  destruct (e16 <? s16) eqn:E3; [discriminate|]. intros E; inversion E; subst. unfold wf_rng. simpl. lia.
+Qed.
+Lemma loaded_items_wf i : wf_input i -> forallb wf_rng (loaded_items i) = true.
+Proof.
+  unfold wf_input, loaded_items. induction 1 as [|p l [Hs He] _ IH]; [reflexivity|]. cbn [map keep_some].
+  destruct (insert_pair (fst p) (snd p)) as [r|] eqn:E; cbn [keep_some]; [|exact IH].
+  cbn [forallb]. rewrite (insert_pair_wf _ _ _ Hs He E). exact IH.
+Qed.
+Lemma kf_items_guard its : kf_items its = 0 -> no_zero_sentinel its = true.
+Proof.
+  unfold kf_items, no_zero_sentinel. destruct (length its <=? 1)%nat; [reflexivity|].
+  destruct (no_v6zero_start its); cbn; [|discriminate]. destruct (no_v4zero_end its); cbn; [reflexivity|discriminate].
+Qed.
+
+(* the model satisfies the executable property on every well-formed input outside the finding classes *)
+Theorem prop_C19_of_model : forall v i,
+  dec_input v = Some i -> wf_input i -> kf_C19 v = 0 -> prop_C19 v (run_C19 v) = true.
+Proof.
+  intros v i Hd Hwf Hk. unfold prop_C19, run_C19, kf_C19 in *. rewrite Hd in *.
+  pose proof (loaded_items_wf _ Hwf) as Hw. pose proof (kf_items_guard _ Hk) as Hg.
+  destruct (merge_items (go_insertion_sort (loaded_items i))) as [m cnt] eqn:Em.
+  assert (Hf : final_of (length (loaded_items i)) cnt (go_insertion_sort m)
+               = build2 go_insertion_sort go_insertion_sort (loaded_items i)).
+  { unfold build2, final_of. rewrite Em. reflexivity. }
+  rewrite Hf.
+  assert (Hm : map (fun q => vbool (probe_result (loaded_singles i)
+                      (build2 go_insertion_sort go_insertion_sort (loaded_items i)) q)) (in_probes i)
+             = map (fun q => vbool (spec_result (loaded_singles i) (loaded_items i) q)) (in_probes i)).
+  { apply map_ext. intros q. unfold probe_result, spec_result. destruct (to16 q); [|reflexivity].
+    rewrite (search_exact _ _ _ _ _ go_insertion_sort_valid go_insertion_sort_valid Hw Hg). reflexivity. }
+  rewrite Hm. apply val_eqb_refl.
+Qed.
